@@ -343,7 +343,7 @@ func evalOn(b *built, w *witness) (string, string, bool) {
 		}
 		if need[x] {
 			sym := "needed-target-proposed"
-			if strings.HasPrefix(why[x], "test of kept") {
+			if strings.Contains(why[x], "test of kept") { // the test itself, or something only that test needs
 				sym = "test-of-kept-target-proposed"
 			}
 			return sym, fmt.Sprintf("gc proposes removing %s, which is needed: %s", w.Names[x], why[x]), true
@@ -857,6 +857,17 @@ func spaceS(names []string, es [][2]int, nsrc, ndata int, emit func(w witness)) 
 	}
 }
 
+var started = time.Now()
+
+// overBudget keeps the thorough tier under its 20-minute contract on a loaded machine (the run then reports exhaustive=false).
+func overBudget(r *lib.Run) bool {
+	if !r.Quick() && time.Since(started) > 16*time.Minute {
+		r.Capped = true
+		return true
+	}
+	return false
+}
+
 func main() {
 	r := lib.Start("C25", "exploration")
 	lib.Quiet()
@@ -929,9 +940,9 @@ func main() {
 			{1, true, allKinds, allMarks, []bool{false, true}, false},
 			{2, true, allKinds, allMarks, []bool{false, true}, false},
 			{3, true, allKinds, allMarks, []bool{false, true}, true},
-			{4, true, allKinds, allMarks, []bool{false, true}, false},
+			{4, true, allKinds, []string{"label"}, []bool{false, true}, false},
 			{4, false, []int{kLib, kBin, kTest}, []string{"label"}, []bool{false}, true},
-			{5, false, []int{kLib, kBin, kTest}, []string{"label"}, []bool{false}, false},
+			{5, false, []int{kLib, kBin, kTest}, nil, []bool{false}, false},
 		}
 		sN, sSrc, sData = 3, 5, 3
 	}
@@ -949,7 +960,7 @@ func main() {
 				defer wg.Done()
 				for {
 					lo := atomic.AddUint64(&next, chunk) - chunk
-					if lo >= total || r.OutOfTime() {
+					if lo >= total || r.OutOfTime() || overBudget(r) {
 						return
 					}
 					for mask := lo; mask < lo+chunk && mask < total; mask++ {
